@@ -194,6 +194,9 @@ structure FrameOK (k0 k1 : V3 ℝ) : Prop where
   unit0 : dot k0 k0 = 1
   unit1 : dot k1 k1 = 1
   fallback : vnorm (cross k0 k1) = 0 → k0.y ≠ 0 ∨ k0.z ≠ 0
+  /-- the directions are exactly parallel or separated by more than the rounding guard of the code's
+  parallel test (in between, the code's fallback frame is orthonormal only to ~1e-8) -/
+  clear : vnorm (cross k0 k1) = 0 ∨ (1:ℝ) / 100000000 ≤ vnorm (cross k0 k1)
 
 theorem sVector_spec (k0 k1 : V3 ℝ) (h : FrameOK k0 k1) :
     dot (sVector k0 k1) (sVector k0 k1) = 1 ∧ dot (sVector k0 k1) k0 = 0 ∧
@@ -201,7 +204,9 @@ theorem sVector_spec (k0 k1 : V3 ℝ) (h : FrameOK k0 k1) :
   unfold sVector
   by_cases hm : vnorm (cross k0 k1) = 0
   · -- fallback branch
-    simp only [(isZero_iff _).mpr hm, if_true]
+    have hlt : Num.lt (vnorm (cross k0 k1)) (parTol : ℝ) = true := by
+      rw [NumReal.lt_eq, hm]; unfold parTol; rw [NumReal.ofRat_eq]; norm_num
+    simp only [hlt, if_true]
     have hc := (vnorm_eq_zero_iff _).mp hm
     have hn : vnorm (cross k0 xhat) ≠ 0 := by
       intro h0
@@ -217,8 +222,15 @@ theorem sVector_spec (k0 k1 : V3 ℝ) (h : FrameOK k0 k1) :
     · unfold cross xhat dot at *; num_real
       obtain ⟨hx, _, _⟩ := hc
       linear_combination (-1 : ℝ) * hx
-  · have hz : Num.isZero (vnorm (cross k0 k1)) = false := by
-      rw [Bool.eq_false_iff]; intro h'; exact hm ((isZero_iff _).mp h')
+  · have hz : Num.lt (vnorm (cross k0 k1)) (parTol : ℝ) = false := by
+      rw [Bool.eq_false_iff]
+      intro hlt
+      rw [NumReal.lt_eq] at hlt
+      unfold parTol at hlt
+      rw [NumReal.ofRat_eq] at hlt
+      rcases h.clear with h' | h'
+      · exact absurd h' hm
+      · norm_num at hlt h'; linarith
     simp only [hz, Bool.false_eq_true, if_false]
     refine ⟨sdiv_unit _ hm, sdiv_dot _ _ _ ?_, sdiv_dot _ _ _ ?_⟩
     · unfold cross dot; num_real; ring
